@@ -35,7 +35,9 @@ def judge(case, acc, ctx):
             inp = os.path.join(d, f"env{i}.suit")
             with open(inp, "wb") as fh:
                 fh.write(data)
-            sf, pf = os.path.join(d, f"storage{i}.hex"), os.path.join(d, f"dfu{i}.hex")
+            # the steps of a sequence write to the SAME two output paths (a build directory is reused), or to fresh ones
+            tag = "" if case.get("reuse_outputs", True) else str(i)
+            sf, pf = os.path.join(d, f"storage{tag}.hex"), os.path.join(d, f"dfu{tag}.hex")
             route = case.get("route", "main")
             raised = None
             try:
@@ -103,7 +105,9 @@ def run_shard(ctx, spec):
 
     acc = Acc()
     route = spec["route"]
-    strat = st.lists(step_s(), min_size=1, max_size=3).map(lambda s: {"steps": s, "route": route})
+    same_env = st.booleans()
+    strat = st.tuples(st.lists(step_s(), min_size=1, max_size=3), st.booleans(), same_env).map(
+        lambda t: {"steps": [dict(x, size=t[0][0]["size"], salt=t[0][0]["salt"]) for x in t[0]] if t[2] else t[0], "route": route, "reuse_outputs": t[1] or len(t[0]) > 1})
     run_given(ctx, acc, "update", strat, lambda c, a: judge(c, a, ctx), seed=ctx.seed * 1000 + spec["i"], n=spec["n"])
     return acc
 
